@@ -411,3 +411,12 @@ def r40_broadcast(facts):
         c.ok("align:corgi::array::Array::sliced_op", "%s:%d" % (F.rel(so["file"]), so["sp"][0]),
              "operand dimensions are matched against the target with one alignment (%s) in all %d places" % ("from the last dimension" if right else "by absolute position", len(right) + len(left)))
     return c
+
+
+def r40_alignment_only(facts):
+    """ALIGNMENT-CONSISTENCY (part (c) of R40 alone): every place where sliced_op matches an operand's dimensions against the target uses ONE alignment - the walk every batched product (leading-dimension broadcast of matmul) and every broadcast reduction goes through"""
+    c = r40_broadcast(facts)
+    c.obs = [o for o in c.obs if "@align:" in o.key]
+    c.analysed = {}
+    c.title = "alignment consistency of the slice walk (sliced_op)"
+    return c
